@@ -1,7 +1,7 @@
 (* Executable statement of C11 for the correspondence run: the observations the model makes for a
    case, the specification of strict acceptance written from the header table, and the judge that
    evaluates the property on the implementation's observations.  Definitions only. *)
-From CSL Require Import Base.Prelude Cbor.Head Addr.VarNat Addr.Crc32 Addr.Byron Addr.Base58 Addr.Shelley Addr.Bech32Iface.
+From CSL Require Import Base.Prelude Cbor.Head Addr.VarNat Addr.Crc32 Addr.Byron Addr.Base58 Addr.Shelley Addr.Bech32Iface Addr.Bech32.
 Local Open Scope N_scope.
 
 (* 0 = not a known class *)
@@ -173,25 +173,35 @@ Record enc_obs := mkEncObs {
   e_embedded : result address;          (* decoded inside an output *)
   e_acc : acc;                          (* accessors of the value *)
   e_prefix : result (list N);           (* human-readable part of to_bech32(None) *)
-  e_bech32 : option (result address);   (* from_bech32(to_bech32(prefix)); None = to_bech32 failed *)
+  e_text : option (list N);             (* to_bech32(prefix); None = refused *)
+  e_bech32 : option (result address);   (* from_bech32 of that text *)
   e_base58 : option (list N);           (* ByronAddress::to_base58 *)
   e_base58_back : option (result byron_addr) }.
 
-(* the model cannot run the bech32 crate: under its law the text decodes to what the strict parser
-   returns for the written bytes *)
-Definition model_enc (a : address) : enc_obs :=
+(* the bech32 crate is modelled (Bech32.v), so the text and its decoding are computed exactly *)
+Definition model_enc (prefix : option (list N)) (a : address) : enc_obs :=
   let bs := to_bytes a in
+  let text := match to_bech32 b32_encode prefix a with Ok s => Some s | _ => None end in
   mkEncObs bs (from_bytes bs) (embedded_decode bs) (accessors a) (default_prefix a)
-    (Some (from_bytes bs))
+    text
+    (match text with Some s => Some (from_bech32 b32_decode s) | None => None end)
     (match a with Byron b => Some (byron_to_base58 b) | _ => None end)
     (match a with Byron b => Some (byron_from_base58 (byron_to_base58 b)) | _ => None end).
 
-Definition judge_enc (a : address) (o : enc_obs) : verdict :=
+(* to_bech32 must succeed exactly when the prefix in force is an acceptable human-readable part *)
+Definition bech32_expected (prefix : option (list N)) (a : address) : bool :=
+  match prefix with
+  | Some p => is_ok (check_hrp p)
+  | None => is_ok (default_prefix a)
+  end.
+
+Definition judge_enc (prefix : option (list N)) (a : address) (o : enc_obs) : verdict :=
   if wf_addressb a then
     if res_eqb address_eqb (e_strict o) (Ok a) && res_eqb address_eqb (e_embedded o) (Ok a)
        && agrees_with_header a (e_bytes o) && acc_agrees (e_acc o) (e_bytes o)
        && res_eqb N.eqb (a_net (e_acc o)) (network_id a)
        && (match e_bech32 o with Some r => res_eqb address_eqb r (Ok a) | None => true end)
+       && Bool.eqb (match e_text o with Some _ => true | None => false end) (bech32_expected prefix a)
        && (match a, e_base58_back o with
            | Byron b, Some r => res_eqb byron_eqb r (Ok b)
            | Byron _, None => false
@@ -213,4 +223,38 @@ Definition judge_b58 (bs : bytes) (back : result bytes) : verdict :=
   match bs with
   | [] => NotApplicable
   | _ => if res_eqb bytes_eqb back (Ok bs) then Holds else Fails 0
+  end.
+
+(* ---------------- cases `bech` / `bech5` / `bechd`: the bech32 codec itself ---------------- *)
+Record bech_obs := mkBechObs {
+  h_u5 : list N;                              (* to_base32 of the bytes (bech), the given symbols (bech5) *)
+  h_text : option (list N);                   (* bech32::encode *)
+  h_dec : option (list N * list N);           (* bech32::decode of that text: (hrp, symbols) *)
+  h_back : option (result bytes) }.           (* from_base32 of the decoded symbols *)
+
+Definition model_bech5 (hrp u5 : list N) : bech_obs :=
+  let text := match encode hrp u5 with Ok s => Some s | _ => None end in
+  let dec := match text with Some s => (match decode s with Ok p => Some p | _ => None end) | None => None end in
+  mkBechObs u5 text dec (match dec with Some (_, d) => Some (from_base32 d) | None => None end).
+Definition model_bech (hrp : list N) (data : bytes) : bech_obs := model_bech5 hrp (to_base32 data).
+
+Definition judge_bech (hrp : list N) (data : bytes) (o : bech_obs) : verdict :=
+  match check_hrp hrp, h_text o with
+  | Ok c, Some _ =>
+      match h_dec o, h_back o with
+      | Some (h, d), Some back =>
+          if bytes_eqb h (hrp_lower c hrp) && bytes_eqb d (h_u5 o) && res_eqb bytes_eqb back (Ok data)
+          then Holds else Fails 0
+      | _, _ => Fails 0
+      end
+  | Ok _, None => Fails 0
+  | _, Some _ => Fails 0
+  | _, None => Holds
+  end.
+
+(* arbitrary text: what decode returns, then from_base32 *)
+Definition model_bechd (s : list N) : option (list N * list N) * option (result bytes) :=
+  match decode s with
+  | Ok (h, d) => (Some (h, d), Some (from_base32 d))
+  | _ => (None, None)
   end.
